@@ -68,7 +68,7 @@ func VerifC27Deliver() {
 	// the packet received from the network: every part may differ from the honest message
 	pkt := &peer.SignedMsg{FromPeerId: honest.FromPeerId, Signature: &peer.Signature{HashType: honest.Signature.HashType, SigData: honest.Signature.SigData}, Data: honest.Data}
 	claimed := hch
-	switch rt.Choose("tamper", 5) {
+	switch rt.Choose("tamper", 7) {
 	case 0: // untouched
 	case 1: // inner channel and/or data replaced (re-marshalled), signature kept
 		claimed = []string{"a", "b", "c"}[rt.Choose("claimedChannel", 3)]
@@ -84,9 +84,25 @@ func VerifC27Deliver() {
 		pkt.FromPeerId = id2.String()
 	case 4: // hash type replaced
 		pkt.Signature.HashType = hash.HashType(rt.IntRange("ht", 0, 4))
+	case 5: // an attacker signs the same inner message with an own key and attaches that key to the
+		// signature (the wire format has a pub_key field); the claimed sender stays the honest publisher
+		sk2, _, _ := c27Key("seed2")
+		forged, err := peer.NewSignature("bifrost/pubsub/pubmessage 2024-06-05T02:38:47.55258Z channel/"+hch, sk2, hash.HashType_HashType_SHA256, honest.Data, true)
+		rt.Assert("attacker signature", err == nil)
+		pkt.Signature = forged
+	case 6: // the honest signature with a public key attached (the honest one or a foreign one)
+		if rt.Choose("attachedKey", 2) == 0 {
+			pkt.Signature.PubKey, _ = crypto.MarshalPublicKey(sk.GetPublic())
+		} else {
+			sk2, _, _ := c27Key("seed2")
+			pkt.Signature.PubKey, _ = crypto.MarshalPublicKey(sk2.GetPublic())
+		}
 	}
+	// "same": the packet is the honest message; an attached copy of a public key does not change what
+	// was signed, by whom, or for which channel (tamper 6 may therefore be accepted or refused)
 	same := rt.And(rt.And(rt.BytesEq(pkt.Data, honest.Data), rt.BytesEq(pkt.Signature.SigData, honest.Signature.SigData)),
 		rt.And(pkt.FromPeerId == honest.FromPeerId, pkt.Signature.HashType == honest.Signature.HashType))
+	attachedOnly := len(pkt.Signature.PubKey) != 0
 	s := &streamHandler{m: m, le: m.le, peerID: peer.ID("\x00\x01P"), ctx: context.Background()}
 	rt.KnownFinding("C01-verify-error-dropped", rt.Not(same))
 	s.handlePublish([]*peer.SignedMsg{pkt})
@@ -100,9 +116,19 @@ func VerifC27Deliver() {
 		rt.Assert("delivered/forwarded => the node subscribes to the signed channel", subscribed)
 		rt.Assert("delivered only to the signed channel's handler, once", (claimed == "a" && da == 1 && db == 0) || (claimed == "b" && db == 1 && da == 0))
 		rt.Assert("forwarded once", fwd == 1)
+		signer, derr := peer.IDB58Decode(honest.FromPeerId)
+		rt.Assert("signer id", derr == nil)
+		for _, ch := range []string{"a", "b"} {
+			for _, v := range rt.Logged("delivered:" + ch) {
+				dm := v.(pubsub.Message)
+				rt.Assert("the subscriber is told the signer as the sender (not the previous hop)", dm.GetFrom() == signer)
+				rt.Assert("the subscriber receives the signed payload", rt.BytesEq(dm.GetData(), hdata))
+				rt.Assert("the subscriber sees the message as authenticated", dm.GetAuthenticated())
+			}
+		}
 	} else {
 		rt.Reach("dropped")
-		rt.Assert("an authentic message for a subscribed channel is delivered", !(rt.And(same, subscribed)))
+		rt.Assert("an authentic message for a subscribed channel is delivered", attachedOnly || !(rt.And(same, subscribed)))
 	}
 	rt.Reach("end")
 }
